@@ -185,6 +185,11 @@ impl<'buf> Session<'buf> {
             return Err(Error::Peer(err));
         }
 
+        if resumed {
+            // Publishes that are replayed on this connection already occupy the broker's window.
+            send_quota = send_quota.saturating_sub(self.data.outbound.inflight_publishes());
+        }
+
         self.runtime.session_resumed = resumed;
         self.runtime.keepalive_interval = keepalive_interval;
         self.runtime.send_quota = send_quota;
